@@ -20,8 +20,8 @@ META = {
         "exchange on the same client must succeed. (Fully symbolic datagrams under the tracer were tried and "
         "replaced by solver-enumerated short datagrams: x690 formats its error messages from the symbolic values, "
         "which realises them anyway and produced engine artefacts.)"),
-    "bounds": ["one substituted octet: quick = every TLV header position (tag and length octets) x 41 header values (all classes, the length forms 0x80..0x85, 0xFE, 0xFF) and every 4th content position x {0x00,0x30,0x80,0x81,0x84,0xFF}; thorough = every position x all 256 values",
-               "every truncation point", "nesting depth 1..60 of constructed values", "every 1-octet datagram; 2-octet datagrams: 8 first octets x all second octets (quick) / all 65536 (thorough)",
+    "bounds": ["one substituted octet: quick = every TLV header position (tag and length octets) x 41 header values (all classes, the length forms 0x80..0x85, 0xFE, 0xFF) and every 4th content position x {0x00,0x30,0x80,0x81,0x84,0xFF}; thorough = every position x all 256 values for the v2c response, the discovery reply, the ideal-MAC authNoPriv response and the notification; every header position x all 256 values + every 2nd content position x 6 values for the other entry points",
+               "every truncation point", "nesting depth 1..60 of constructed values", "every 1-octet datagram; 2-octet datagrams: 8 first octets x all second octets (thorough: all 65536 into the v2c response path)",
                "entry points: response (v1, v2c, v3 noAuth/auth/authPriv), discovery reply, trap listener"],
     "outside": ["datagrams longer than the base messages (60-200 octets)", "two or more simultaneous corruptions beyond the fully symbolic short datagrams",
                 "wall-clock time as such (decode calls are the proxy)"],
@@ -301,9 +301,13 @@ def jobs(tier):
             groups = [("hdr", hdr[i:i + 8], HEADER_VALUES) for i in range(0, len(hdr), 8)]
             content = [p for p in range(len(base)) if p not in set(hdr)][::4]
             groups += [("content", content[i:i + 40], CONTENT_VALUES) for i in range(0, len(content), 40)]
-        else:
+        elif entry in ("v2c", "discovery", "md5-idealmac", "trap"):
             allpos = list(range(len(base)))
-            groups = [("pos", allpos[i:i + 4], allvals) for i in range(0, len(allpos), 4)]
+            groups = [("pos", allpos[i:i + 6], allvals) for i in range(0, len(allpos), 6)]
+        else:
+            groups = [("hdr", hdr[i:i + 6], allvals) for i in range(0, len(hdr), 6)]
+            content = [p for p in range(len(base)) if p not in set(hdr)][::2]
+            groups += [("content", content[i:i + 40], CONTENT_VALUES) for i in range(0, len(content), 40)]
         for gi, (label, positions, values) in enumerate(groups):
             if not positions:
                 continue
@@ -318,7 +322,7 @@ def jobs(tier):
     for entry in ("v2c", "discovery", "trap"):
         out.append(Job(f"{entry}-every-1-octet-datagram", make_short(entry, 1), [Arg("o0", 0, 255)], timeout=600, mode="E/concolic-window",
                        functions=funcs, sample_every=13))
-        if quick:
+        if quick or entry != "v2c":
             out.append(Job(f"{entry}-2-octet-datagrams", make_short(entry, 2, FIRST_OCTETS), [Arg("o0", 0, len(FIRST_OCTETS) - 1), Arg("o1", 0, 255)],
                            timeout=600, mode="E/concolic-window", functions=funcs, sample_every=53))
         else:
